@@ -19,14 +19,14 @@ B64Q = b"QUJDREVGR0hJSktMTU5PUFFS"  # 24 base64 characters ("ABCDEFGHIJKLMNOPQR"
 
 # decoder -> list of (tag, template, tier, timeout)
 T = {
-    "base64.find_atob": [("q", Tmpl(b"atob('", 3, b"')"), "both", 300), ("q4", Tmpl(b"atob('QUJD", 4, b"')"), "thorough", 1800),
+    "base64.find_atob": [("q", Tmpl(b"atob('Q", 3, b"')"), "both", 300), ("q4", Tmpl(b"atob('QUJD", 4, b"')"), "thorough", 1500),
                          ("free", Tmpl(b"atob(", 4), "both", 300)],
-    "base64.find_base64": [("blob", Tmpl(B64Q, 3), "both", 300), ("blob5", Tmpl(B64Q[:20], 5), "thorough", 1800),
+    "base64.find_base64": [("blob", Tmpl(B64Q, 3), "both", 300), ("blob5", Tmpl(B64Q[:20], 5), "thorough", 1500),
                            ("nl", Tmpl(B64Q[:8], 2, B64Q[8:16], 1, B64Q[16:]), "both", 300)],
-    "base64.find_Base64Decode": [("q", Tmpl(b"Base64Decode('", 3, b"')"), "both", 300)],
-    "base64.find_FromBase64String": [("q", Tmpl(b"FromBase64String('", 3, b"')"), "both", 300),
+    "base64.find_Base64Decode": [("q", Tmpl(b"Base64Decode('Q", 3, b"')"), "both", 300)],
+    "base64.find_FromBase64String": [("q", Tmpl(b"FromBase64String('Q", 3, b"')"), "both", 300),
                                      ("xor", Tmpl(b"FromBase64String('QUJD') -bxor ", 3), "both", 300)],
-    "chr.find_chr": [("n", Tmpl(b"chr(", 4, b")"), "both", 300), ("w", Tmpl(b"ChrW(", 5, b")"), "thorough", 1800)],
+    "chr.find_chr": [("n", Tmpl(b"chr(", 4, b")"), "both", 300), ("w", Tmpl(b"ChrW(", 5, b")"), "thorough", 1500)],
     "codec.find_utf16": [("pairs", Tmpl(b"a\0b\0c\0d\0e\0", 4, b"h\0"), "both", 300), ("free", Tmpl(b"a\0b\0c\0d\0e\0f\0", 3), "both", 300)],
     "concat.find_concat": [("mid", Tmpl(b"'a'", 3, b"'b'"), "both", 300), ("lit", Tmpl(b"'", 2, b"'+\"", 2, b"\""), "both", 300)],
     "filename.find_executable_name": [("n", Tmpl(b" ", 3, b".exe", 1), "both", 300)],
@@ -37,12 +37,12 @@ T = {
     "javascript.find_unescape": [("q", Tmpl(b"unescape('", 4, b"')"), "both", 300)],
     "network.find_domains": [("lbl", Tmpl(b" ex", 3, b"le.com "), "both", 300), ("edge", Tmpl(1, b"example.com", 2), "both", 300)],
     "network.find_emails": [("lp", Tmpl(b" a", 3, b"@example.com "), "both", 300)],
-    "network.find_ips": [("oct", Tmpl(b" 1", 1, b".2.3.4 "), "both", 600), ("edge", Tmpl(1, b"10.2.3.4", 1), "both", 600)],
-    "network.find_urls": [("path", Tmpl(b"http://a.example.com/", 2), "both", 600), ("host", Tmpl(b"http://", 1, b"example.com"), "both", 600), ("host2", Tmpl(b"http://", 2, b"example.com"), "thorough", 3000),
-                          ("ctx", Tmpl(1, b"http://example.com/a", 1), "both", 600), ("ctx2", Tmpl(1, b"http://example.com/a", 1, b"b"), "thorough", 3000), ("pct", Tmpl(b"http://example.com/%", 2), "both", 600)],
+    "network.find_ips": [("oct", Tmpl(b" 1", 1, b".2.3.4 "), "both", 300), ("edge", Tmpl(1, b"10.2.3.4", 1), "both", 300)],
+    "network.find_urls": [("path", Tmpl(b"http://a.example.com/", 2), "both", 300), ("host", Tmpl(b"http://", 1, b"example.com"), "both", 300), ("host2", Tmpl(b"http://", 2, b"example.com"), "thorough", 1500),
+                          ("ctx", Tmpl(1, b"http://example.com/a", 1), "thorough", 1500), ("ctx2", Tmpl(1, b"http://example.com/a", 1, b"b"), "thorough", 1500), ("pct", Tmpl(b"http://example.com/%", 2), "both", 300)],
     "path.find_path": [("seg", Tmpl(b"/usr/", 3, b"/file"), "both", 300)],
-    "path.find_windows_path": [("seg", Tmpl(b"c:\\temp\\", 2, b"o\\file.txt"), "both", 600), ("unc", Tmpl(b"\\\\ho", 2, b"\\share\\file.txt"), "both", 600),
-                               ("dots", Tmpl(b"c:\\aaa\\", 2, b"\\bbb\\file.exe"), "both", 600)],
+    "path.find_windows_path": [("seg", Tmpl(b"c:\\temp\\", 2, b"o\\file.txt"), "both", 300), ("unc", Tmpl(b"\\\\ho", 1, b"\\share\\file.txt"), "both", 300), ("unc2", Tmpl(b"\\\\ho", 2, b"\\share\\file.txt"), "thorough", 1500),
+                               ("dots", Tmpl(b"c:\\aaa\\", 2, b"\\bbb\\file.exe"), "both", 300)],
     "pe_file.find_pe_files": [("mz", Tmpl(b"MZ", 3), "both", 300)],
     "powershell.find_powershell_bytes": [("free", Tmpl(b"0x41,", 3), "both", 300)],
     "replace.find_replace": [("a", Tmpl(b"'a", 2, b"'.replace('", 1, b"','", 1, b"')"), "both", 300)],
@@ -51,10 +51,10 @@ T = {
     "replace.find_js_regex_replace": [("a", Tmpl(b"'a", 2, b"'.replace(/", 1, b"/g,'", 1, b"')"), "both", 300)],
     "reverse.find_reverse": [("q", Tmpl(b"reverse('", 3, b"')"), "both", 300)],
     "shell.find_cmd_strings": [("free", Tmpl(b"cmd ", 3), "both", 300), ("paren", Tmpl(b"(cmd /c a", 2, b")", 1), "both", 300),
-                               ("free4", Tmpl(b"cmd", 4), "thorough", 1800)],
-    "shell.find_powershell_strings": [("free", Tmpl(b"powershell ", 3), "both", 600), ("enc", Tmpl(b"powershell -e", 2, b"QQBCAA=="), "both", 600),
-                                      ("sep", Tmpl(b"powershell/e", 3, b"AAAA"), "both", 600), ("q", Tmpl(b"\"powershell ", 2, b"\"", 1), "both", 600),
-                                      ("noctx", Tmpl(b"aaaaaaa", 1, b"pwsh", 2), "both", 600)],
+                               ("free4", Tmpl(b"cmd", 4), "thorough", 1500)],
+    "shell.find_powershell_strings": [("free", Tmpl(b"powershell ", 3), "both", 300), ("enc", Tmpl(b"powershell -e", 2, b"QQBCAA=="), "both", 300),
+                                      ("sep", Tmpl(b"powershell/e", 3, b"AAAA"), "both", 300), ("q", Tmpl(b"\"powershell ", 2, b"\"", 1), "both", 300),
+                                      ("noctx", Tmpl(b"aaaaaaa", 1, b"pwsh", 2), "both", 300)],
     "vba.find_createobject": [("free", Tmpl(b"CreateObject(", 4), "both", 300)],
     "vba.find_strreverse": [("q", Tmpl(b"StrReverse(\"", 3, b"\")"), "both", 300)],
     "xml.find_xml_hex": [("ref", Tmpl(b"&#65;&#x41;&#", 3, b";&#66;&#67;"), "both", 300)],
